@@ -9,7 +9,7 @@
     [ordered] = strictly increasing, disjoint; [line_of] = an independent newline count.
 
     Option sets: [gen_scan_opts] is dumped from migrate.Stmts and the three drivers' ScanStmts on
-    every run; [supported] = no GO batch command, no BEGIN TRY/END CATCH matching. *)
+    every run; [supported] = no GO batch command (BEGIN TRY/END CATCH matching is covered). *)
 From Coq Require Import List NArith ZArith Bool.
 From Atlas Require Import Base.Bytes Lex.LexModel Lex.LexProofs Lex.LexDrivers gen.Gen_ScanOpts.
 Import ListNotations.
@@ -50,13 +50,19 @@ Theorem C08_total : forall o inp,
 Proof. intros o inp Ho. exact (scan_total o inp (in_driver_supported o Ho)). Qed.
 Print Assumptions C08_total.
 
-(** the same three statements for *every* option set without GoCommand / MatchBeginTryCatch. *)
+(** the same statements for *every* option set without GoCommand (incl. MatchBeginTryCatch, whose
+    scanner moves backwards, BeginEndTerminator and OmitDelimiter). *)
 Theorem C08_lossless_all_supported : forall o inp ss,
   supported o = true -> scan o inp = Ok ss ->
   (exists hdr d0 rest, inp = hdr ++ rest /\ Header inp hdr d0 /\ Lossless o d0 (zlen hdr) rest ss)
   /\ Forall (TextAt inp) ss /\ ordered 0 ss.
 Proof. intros o inp ss Hs H. exact (conj (scan_lossless o inp ss Hs H) (scan_positions o inp ss Hs H)). Qed.
 Print Assumptions C08_lossless_all_supported.
+
+Theorem C08_total_all_supported : forall o inp,
+  supported o = true -> scan o inp <> OutOfFuel /\ scan o inp <> Panic.
+Proof. exact scan_total. Qed.
+Print Assumptions C08_total_all_supported.
 
 (** why GoCommand is excluded (no OSS driver enables it): with it the reported position is
     wrong — [Pos] of "SELECT 1" in "SELECT 1\nGO\n" is 2. Reproduced on the Go code by the tie. *)
@@ -98,6 +104,15 @@ Example C08_ex_total_nested_begins :
 Proof. vm_compute. reflexivity. Qed.
 
 (** ** non-vacuity *)
+(* "BEGIN TRY\nx;\nEND TRY\nBEGIN CATCH\ny;\nEND CATCH\nz;" with MatchBeginTryCatch: the block is one
+   statement although the scanner rewinds after END CATCH *)
+Definition opts_try := mkOpts false false true false false false false false false false.
+Example C08_ex_trycatch :
+  supported opts_try = true /\
+  exists t1, scan opts_try [66;69;71;73;78;32;84;82;89;10;120;59;10;69;78;68;32;84;82;89;10;66;69;71;73;78;32;67;65;84;67;72;10;121;59;10;69;78;68;32;67;65;84;67;72;10;122;59]%N
+             = Ok [mkStmt 0 t1 []; mkStmt 46 [122;59]%N []] /\ length t1 = 45%nat.
+Proof. split; [reflexivity|]. eexists. split; [vm_compute; reflexivity|reflexivity]. Qed.
+
 (* "-- atlas:delimiter $$\n-- c\nSELECT 1$$\n/* x */ SELECT 2 $$" *)
 Definition ex_in : bytes :=
   [45;45;32;97;116;108;97;115;58;100;101;108;105;109;105;116;101;114;32;36;36;10;
